@@ -4,8 +4,25 @@
 From Coq Require Import List Bool Arith String.
 Import ListNotations.
 From Lime Require Import Base.Res Hs.Types Hs.Server Hs.Monitor Corr.HsServer Corr.HsChecks.
-Definition case := scase.
-Definition check (c : scase) : bool := c09_check c.
-Definition agrees (c : scase) : bool := evs_eqb (c09_proj (k_obs c)) (c09_proj (model_obs c)).
-Definition mismatches (cs : list scase) : list nat := bad_indices agrees cs.
-Definition violations (cs : list scase) : list nat := bad_indices check cs.
+(* besides the scripted handshakes: a peer that writes, in the same segment as its selection of TLS and therefore
+   in clear, credentials for one identity, completes the TLS handshake and then presents another identity's
+   credentials under TLS (an implementation-only direct check: Model B receives its inputs one at a time).  What
+   was received in clear before the switch must never be acted upon after it. *)
+Inductive case :=
+| KScript (c : scase)
+| KPipelined (cleartext_identity : nat) (authenticated : list nat) (established_for : option nat).
+
+Definition check (c : case) : bool :=
+  match c with
+  | KScript s => c09_check s
+  | KPipelined clear auths est =>
+      negb (existsb (Nat.eqb clear) auths) &&
+      match est with Some n => negb (Nat.eqb n clear) | None => true end
+  end.
+Definition agrees (c : case) : bool :=
+  match c with
+  | KScript s => evs_eqb (c09_proj (k_obs s)) (c09_proj (model_obs s))
+  | KPipelined _ _ _ => true
+  end.
+Definition mismatches (cs : list case) : list nat := bad_indices agrees cs.
+Definition violations (cs : list case) : list nat := bad_indices check cs.
